@@ -60,9 +60,12 @@ def validate(sc, files, parallel=12, timeout=1800):
         for fp, res in ex.map(one, parts):
             states += res["distinct"]
             kf.update(res["kf"])
-            for m in _RE_DRIFT.finditer(res["out"]):
-                seg, _ = V.segment_of(fp, int(m.group(1)))
-                drift.append({"trace": [json.loads(x) for x in seg[-8:]], "tlc": re.sub(r"\s+", " ", m.group(0))[:400]})
+            for k, m in enumerate(_RE_DRIFT.finditer(res["out"])):
+                d = {"tlc": re.sub(r"\s+", " ", m.group(0))[:400]}
+                if k < 2 and len(drift) < 6:   # a few worked-out examples are enough, the count is what matters
+                    seg, _ = V.segment_of(fp, int(m.group(1)))
+                    d["trace"] = [json.loads(x) for x in seg[-8:]]
+                drift.append(d)
             if res["rejected_at"] is not None:
                 rej.append((fp, res["rejected_at"], res))
             elif res["violated"]:
@@ -149,7 +152,7 @@ def run(sc, tier, seed):
     val = validate(sc, meta["trace_files"])
     R.states += val["states"]
     R.handle_validation(val)
-    extra = {"impl_drift": val["drift"][:5], "impl_drift_count": len(val["drift"])}
+    extra = {"impl_drift": [d for d in val["drift"] if "trace" in d][:5], "impl_drift_count": len(val["drift"])}
     for dft in val["drift"][:3]:
         V.log("impl drift (not a violation): the code-shaped model predicts another output:", dft["tlc"][:300])
     if val["accepted"]:
